@@ -618,3 +618,94 @@ Proof.
   - cbn [matchesb]. rewrite IH. replace (c =? c) with true by lia. reflexivity.
   - cbn [matchesb]. rewrite Hd. cbn [fst snd]. rewrite IH, Hr. destruct neg; reflexivity.
 Qed.
+
+(** ** the other direction: what [matchChunk] accepts, the grammar derives *)
+Lemma classLoop_ok_inv : forall fuel q r nr m, (length q < fuel)%nat ->
+  match classLoop fuel q r nr m with
+  | Ok (q', _) => (nr = true -> exists rs, RangesTail q rs q')
+                  /\ (nr = false -> exists lo hi q1 rs, Range q lo hi q1 /\ RangesTail q1 rs q')
+  | Bad => True
+  | Fuel | Panic => False
+  end.
+Proof.
+  induction fuel as [|f IH]; intros q r nr m Hf; [lia|].
+  assert (Hstep :
+    match (match getEsc q with
+           | None => Bad
+           | Some (lo, chunk1) =>
+             match chunk1 with
+             | [] => Panic
+             | c1 :: t1 =>
+               if c1 =? ch_dash
+               then match getEsc t1 with
+                    | None => Bad
+                    | Some (hi, chunk2) => classLoop f chunk2 r true (m || ((lo <=? r) && (r <=? hi)))
+                    end
+               else classLoop f chunk1 r true (m || ((lo <=? r) && (r <=? lo)))
+             end
+           end) with
+    | Ok (q', _) => exists lo hi q1 rs, Range q lo hi q1 /\ RangesTail q1 rs q'
+    | Bad => True
+    | Fuel | Panic => False
+    end).
+  { destruct (getEsc q) as [[lo chunk1]|] eqn:Eg; [|exact I].
+    destruct (rchar_getEsc _ _ _ Eg) as [Hr Hne]. destruct chunk1 as [|c1 t1]; [congruence|].
+    pose proof (rchar_len _ _ _ Hr) as Hl1. cbn [length] in Hl1.
+    destruct (c1 =? ch_dash) eqn:Ed.
+    - assert (c1 = ch_dash) by lia. subst c1.
+      destruct (getEsc t1) as [[hi chunk2]|] eqn:Eg2; [|exact I].
+      destruct (rchar_getEsc _ _ _ Eg2) as [Hr2 Hne2]. pose proof (rchar_len _ _ _ Hr2) as Hl2.
+      specialize (IH chunk2 r true (m || ((lo <=? r) && (r <=? hi))) ltac:(lia)).
+      destruct (classLoop f chunk2 r true _) as [[q' m']| | |]; try exact IH.
+      destruct IH as [IH1 _]. destruct (IH1 eq_refl) as (rs & HT).
+      exists lo, hi, chunk2, rs. split; [eapply Range_two; eassumption|exact HT].
+    - specialize (IH (c1 :: t1) r true (m || ((lo <=? r) && (r <=? lo))) ltac:(cbn [length]; lia)).
+      destruct (classLoop f (c1 :: t1) r true _) as [[q' m']| | |]; try exact IH.
+      destruct IH as [IH1 _]. destruct (IH1 eq_refl) as (rs & HT).
+      exists lo, lo, (c1 :: t1), rs. split; [apply Range_one; [exact Hr|simpl; lia]|exact HT]. }
+  cbn [classLoop]. destruct q as [|c t].
+  - destruct (match getEsc [] with Some _ => _ | None => _ end) as [[q' m']| | |]; try exact Hstep.
+    destruct Hstep as (lo & hi & q1 & rs & HR & HT). split; intros _; [|exists lo, hi, q1, rs; split; assumption].
+    exists ((lo, hi) :: rs). eapply RT_more; eassumption.
+  - destruct ((c =? ch_rbr) && nr) eqn:Ec.
+    + apply andb_prop in Ec. destruct Ec as [Ec ->]. assert (c = ch_rbr) by lia. subst c.
+      split; [intros _; exists []; apply RT_close|discriminate].
+    + destruct (match getEsc (c :: t) with Some _ => _ | None => _ end) as [[q' m']| | |]; try exact Hstep.
+      destruct Hstep as (lo & hi & q1 & rs & HR & HT). split; intros _; [|exists lo, hi, q1, rs; split; assumption].
+      exists ((lo, hi) :: rs). eapply RT_more; eassumption.
+Qed.
+
+Lemma scan_app p : forall inr a b, scan p inr = (a, b) -> p = a ++ b.
+Proof.
+  induction p as [p IH] using (well_founded_induction (Wf_nat.well_founded_ltof _ (@length N))).
+  intros inr a b H. destruct p as [|c t]; [inversion H; reflexivity|]. cbn [scan] in H.
+  destruct (c =? ch_bsl).
+  - destruct t as [|c' t']; [inversion H; reflexivity|].
+    destruct (scan t' inr) as [a0 b0] eqn:E. inversion H; subst. cbn [app]. f_equal. f_equal.
+    apply (IH t' ltac:(unfold ltof; simpl; lia) inr). exact E.
+  - destruct (c =? ch_lbr).
+    { destruct (scan t true) as [a0 b0] eqn:E. inversion H; subst. cbn [app]. f_equal. apply (IH t ltac:(unfold ltof; simpl; lia) true). exact E. }
+    destruct (c =? ch_rbr).
+    { destruct (scan t false) as [a0 b0] eqn:E. inversion H; subst. cbn [app]. f_equal. apply (IH t ltac:(unfold ltof; simpl; lia) false). exact E. }
+    destruct ((c =? ch_star) && negb inr); [inversion H; reflexivity|].
+    destruct (scan t inr) as [a0 b0] eqn:E. inversion H; subst. cbn [app]. f_equal. apply (IH t ltac:(unfold ltof; simpl; lia) inr). exact E.
+Qed.
+
+Lemma scan_idem p : forall inr a b, scan p inr = (a, b) -> scan a inr = (a, []).
+Proof.
+  induction p as [p IH] using (well_founded_induction (Wf_nat.well_founded_ltof _ (@length N))).
+  intros inr a b H. destruct p as [|c t]; [inversion H; reflexivity|]. cbn [scan] in H.
+  destruct (c =? ch_bsl) eqn:E1.
+  - destruct t as [|c' t']; [inversion H; subst; cbn [scan]; rewrite E1; reflexivity|].
+    destruct (scan t' inr) as [a0 b0] eqn:E. inversion H; subst. cbn [scan]. rewrite E1.
+    rewrite (IH t' ltac:(unfold ltof; simpl; lia) inr _ _ E). reflexivity.
+  - destruct (c =? ch_lbr) eqn:E2.
+    { destruct (scan t true) as [a0 b0] eqn:E. inversion H; subst. cbn [scan]. rewrite E1, E2.
+      rewrite (IH t ltac:(unfold ltof; simpl; lia) true _ _ E). reflexivity. }
+    destruct (c =? ch_rbr) eqn:E3.
+    { destruct (scan t false) as [a0 b0] eqn:E. inversion H; subst. cbn [scan]. rewrite E1, E2, E3.
+      rewrite (IH t ltac:(unfold ltof; simpl; lia) false _ _ E). reflexivity. }
+    destruct ((c =? ch_star) && negb inr) eqn:E4; [inversion H; reflexivity|].
+    destruct (scan t inr) as [a0 b0] eqn:E. inversion H; subst. cbn [scan]. rewrite E1, E2, E3, E4.
+    rewrite (IH t ltac:(unfold ltof; simpl; lia) inr _ _ E). reflexivity.
+Qed.
